@@ -17,4 +17,5 @@ INVARIANT Conserve
 INVARIANT Dissipate
 INVARIANT NewmarkEquilibrium
 INVARIANT Family
+INVARIANT Affine
 INVARIANT EmitOK
